@@ -40,6 +40,7 @@ from explorerscript.ssb_converting.ssb_special_ops import (
     SsbLabelJump,
     SwitchStart,
     OPS_THAT_END_CONTROL_FLOW,
+    OP_JUMP,
     OP_SWITCH_DUNGEON_MODE,
 )
 from explorerscript.ssb_converting.util import Blk
@@ -119,16 +120,25 @@ class SwitchWriteHandler(AbstractWriteHandler):
                                 self.start_vertex,
                                 check_end_block=self.check_end_block,
                             )
-                            handler.write_content()
+                            vertex_after_case = handler.write_content()
                             if (
                                 not isinstance(handler.last_handler_in_block, LabelWriteHandler)
                                 or not handler.last_handler_in_block.switch_fell_through
                             ):
                                 root_op_before = self._get_root_op(handler.last_vertex)
                                 assert handler.last_handler_in_block is not None
+                                # A jump to the end of the switch, that is still in the graph, is the break of this case
+                                # (no jump statement was written for it).
+                                ended_with_jump_to_switch_end = (
+                                    vertex_after_case is not None
+                                    and vertex_after_case == switch_end_vertex
+                                    and root_op_before is not None
+                                    and root_op_before.op_code.name == OP_JUMP
+                                )
                                 if not handler.last_handler_in_block.ended_on_jump and (
                                     root_op_before is None
                                     or root_op_before.op_code.name not in OPS_THAT_END_CONTROL_FLOW
+                                    or ended_with_jump_to_switch_end
                                 ):
                                     self.decompiler.write_stmnt("break;")
 
